@@ -17,9 +17,13 @@ import (
 	"time"
 )
 
-const (
-	VerifDir = "/verif"
-)
+// VerifDir is /verif, or the snapshot of it the check was started from (VERIF_DIR, set by bin/check.sh).
+var VerifDir = func() string {
+	if d := os.Getenv("VERIF_DIR"); d != "" {
+		return d
+	}
+	return "/verif"
+}()
 
 // Violation is one observed refutation of a property.
 type Violation struct {
